@@ -4,6 +4,7 @@ use crate::util::{Ctx, Tier};
 
 pub mod c03;
 pub mod c04;
+pub mod c05;
 pub mod c06;
 pub mod c08;
 pub mod c09;
@@ -13,6 +14,7 @@ pub mod c12;
 pub mod c13;
 pub mod c15;
 pub mod c16;
+pub mod c17;
 pub mod progs;
 
 pub fn c04_op_programs() -> Vec<String> {
@@ -26,6 +28,7 @@ pub fn run(id: &str, tier: Tier, seed: u64) -> i32 {
         "C14" => progs::run(&Ctx::new(id, tier, seed, 60.0, 720.0), progs::Kind::C14),
         "C03" => c03::run(&Ctx::new(id, tier, seed, 40.0, 360.0)),
         "C04" => c04::run(&Ctx::new(id, tier, seed, 60.0, 900.0)),
+        "C05" => c05::run(&Ctx::new(id, tier, seed, 60.0, 600.0)),
         "C06" => c06::run(&Ctx::new(id, tier, seed, 45.0, 480.0)),
         "C08" => c08::run(&Ctx::new(id, tier, seed, 60.0, 600.0)),
         "C09" => c09::run(&Ctx::new(id, tier, seed, 45.0, 360.0)),
@@ -34,6 +37,7 @@ pub fn run(id: &str, tier: Tier, seed: u64) -> i32 {
         "C12" => c12::run(&Ctx::new(id, tier, seed, 60.0, 480.0)),
         "C13" => c13::run(&Ctx::new(id, tier, seed, 60.0, 600.0)),
         "C15" => c15::run(&Ctx::new(id, tier, seed, 30.0, 240.0)),
+        "C17" => c17::run(&Ctx::new(id, tier, seed, 45.0, 480.0)),
         "C16" => c16::run(&Ctx::new(id, tier, seed, 30.0, 300.0)),
         _ => {
             eprintln!("unknown property {id}");
